@@ -487,24 +487,34 @@ class C03Monitor(X.Monitor):
         policy = lane.config.label_params["matching_label_policy"].value
 
         # --- results = TP + FP, each exactly once -----------------------------------------------------
-        res_by_est = {}
+        # entries are identified by their (estimate, ground truth) pair, not by the result object itself: an
+        # implementation is free to build new result objects for its lists (it already does for stripped FPs)
+        def key(r):
+            return (id(r.estimated_object), None if r.ground_truth_object is None else id(r.ground_truth_object))
+
+        count = {}
         for r in results:
-            res_by_est.setdefault(id(r.estimated_object), []).append(r)
-        count = {id(r): 0 for r in results}
+            count[key(r)] = count.get(key(r), 0)
+        if len(count) != len(results):
+            ctx.violate("C03", "results_partition", "two surviving results share the same estimate / ground-truth pair", {}, st.index)
+        fp_label_gt = {}
+        for r in results:
+            g = r.ground_truth_object
+            if g is not None and V.label_of(g) == "false_positive":
+                fp_label_gt.setdefault(id(r.estimated_object), []).append(key(r))
         for r in tp:
-            if id(r) in count:
-                count[id(r)] += 1
+            if key(r) in count:
+                count[key(r)] += 1
             else:
                 ctx.violate("C03", "nothing_foreign", "TP list holds a result that did not survive the critical filter", {}, st.index)
         for r in fp:
-            if id(r) in count:
-                count[id(r)] += 1
+            if key(r) in count:
+                count[key(r)] += 1
                 continue
-            # an FP whose FP-labelled ground truth was stripped: matched by estimate identity
-            src = res_by_est.get(id(r.estimated_object), [])
-            src = [s for s in src if s.ground_truth_object is not None and V.label_of(s.ground_truth_object) == "false_positive"]
+            # an FP whose FP-labelled ground truth was stripped: matched by its estimate
+            src = fp_label_gt.get(id(r.estimated_object), [])
             if r.ground_truth_object is None and len(src) == 1:
-                count[id(src[0])] += 1
+                count[src[0]] += 1
                 ctx.probe("fp_labelled_gt_matched")
             else:
                 ctx.violate("C03", "nothing_foreign", "FP list holds a result that did not survive the critical filter", {}, st.index)
